@@ -32,11 +32,18 @@
                                *other* file is current
      VarAdd(p)                 a variable of type p.T is added to the (single, long-lived) var ( ... ) block of the
                                current file: a declaration that keeps growing after the file was written
+     Visit(ps)                 the *other* file is made current (SetCurFile), a function referencing ps is declared and
+                               built there, and the previous file is restored (RestoreCurFile): everything belongs
+                               to the other file, the current file does not change
+     RefAt(p, pos)             a declaration of the current file that references p from the syntactic position pos:
+                               parameter / result type, initial value of a package-level variable, a live type
+                               declaration, a labeled statement, key / value of a map literal, index of a slice
+                               literal, the type of a composite literal, inside a function literal
      Write(f)                  the file is written (and checked) now
    Deviation constants make the model behave like known defects of the implementation, so
    that TLC shows the property-level consequence (vacuity guard). *)
 EXTENDS Integers, Sequences, FiniteSets, TLC, Json
-CONSTANTS Files, Paths, Names, Binds, MaxOps, Ops, PathSets
+CONSTANTS Files, Paths, Names, Binds, MaxOps, Ops, PathSets, Positions
 \* Ops: enabled operation kinds; PathSets: the reference sets a Func may use (a set of sets of paths)
 
 VARIABLES cur, decls, forced, declared, nops, hist
@@ -61,11 +68,15 @@ Force(p) == /\ "Force" \in Ops /\ p \notin forced[cur] /\ forced' = [forced EXCE
 TypeDel(p) == /\ "TypeDel" \in Ops /\ NewDecl(cur, {p}, FALSE) /\ UNCHANGED <<cur, forced, declared>> /\ Log("TypeDel", p, "")
 Cross(p) == /\ "Cross" \in Ops /\ NewDecl(cur, {p}, TRUE) /\ UNCHANGED <<cur, forced, declared>> /\ Log("Cross", p, "")
 VarAdd(p) == /\ "VarAdd" \in Ops /\ NewDecl(cur, {p}, TRUE) /\ UNCHANGED <<cur, forced, declared>> /\ Log("VarAdd", p, "")
+Visit(ps) == /\ "Visit" \in Ops /\ NewDecl(Other(cur), ps, TRUE) /\ UNCHANGED <<cur, forced, declared>> /\ Log("Visit", ps, "")
+RefAt(p, pos) == /\ "RefAt" \in Ops /\ NewDecl(cur, {p}, TRUE) /\ UNCHANGED <<cur, forced, declared>> /\ Log("RefAt", p, pos)
 Write(f) == /\ "Write" \in Ops /\ nops > 0 /\ hist[Len(hist)].op # "Write"
             /\ UNCHANGED <<cur, decls, forced, declared>> /\ Log("Write", f, "")
 Next == /\ nops < MaxOps
         /\ \/ \E f \in Files : SetCur(f) \/ Write(f)
            \/ \E ps \in PathSets, b \in Binds : Func(ps, b)
+           \/ \E ps \in PathSets : Visit(ps)
+           \/ \E p \in Paths, pos \in Positions : RefAt(p, pos)
            \/ \E n \in Names : Var(n)
            \/ \E p \in Paths : Discard(p) \/ Force(p) \/ TypeDel(p) \/ Cross(p) \/ VarAdd(p)
 Spec == Init /\ [][Next]_vars
